@@ -817,7 +817,7 @@ class _MatEval:
     quantified index; `out[k1, k2] = v` inside such loops and the broadcast store `out[:, :] = V` both define element (i, j) of out.
     Square N-by-N matrices and length-N vectors: every extent (M.shape[0], M.shape[1], len(M), E.size, np.diagonal(M).size) is N."""
 
-    ELEMWISE = {"sqrt": sp.sqrt, "abs": sp.Abs, "absolute": sp.Abs, "fabs": sp.Abs}
+    ELEMWISE = {"sqrt": sp.sqrt, "abs": sp.Abs, "absolute": sp.Abs, "fabs": sp.Abs, "sign": sp.sign}
     SAME = {"asarray", "asanyarray", "ascontiguousarray", "atleast_1d", "atleast_2d"}
     COPY = {"array", "copy", "astype", "float64", "double"}
     ALLOC = {"zeros", "empty", "ones", "full", "zeros_like", "empty_like", "ones_like", "full_like"}
@@ -836,6 +836,7 @@ class _MatEval:
         self.unfollowed = []
         self.ret = []
         self.nidx = 0
+        self.closed = set()     # loop indices whose loop has finished
         self.run(fi.node.body, [], False)
 
     # -- statements
@@ -860,6 +861,8 @@ class _MatEval:
                             and len(loops) == 1 and self.loopinfo[loops[0]][0]):
                         raise _NoRec("list operation `%s`" % norm(c)[:60])
                     acc.pending = (loops[0], v)
+                elif isinstance(c, ast.Call):
+                    self.effect_call(c, loops, conditional)
                 continue
             if isinstance(st, ast.Assign) and len(st.targets) == 1:
                 t = st.targets[0]
@@ -893,6 +896,7 @@ class _MatEval:
                     self.bind(st.target, self.items(it, k), st)
                     self.run(st.body, loops + [k], conditional)
                     self.close_lists(k)
+                    self.closed.add(k)
                     continue
                 if not (isinstance(it, ast.Call) and call_name(it) == "range" and isinstance(st.target, ast.Name) and 1 <= len(it.args) <= 2 and not st.orelse):
                     raise _NoRec("loop over `%s`" % norm(it))
@@ -907,6 +911,7 @@ class _MatEval:
                 self.env[st.target.id] = k
                 self.run(st.body, loops + [k], conditional)
                 self.close_lists(k)
+                self.closed.add(k)
             elif isinstance(st, ast.If):
                 only_raise = all(isinstance(x, (ast.Raise, ast.Expr)) for x in st.body) and any(isinstance(x, ast.Raise) for x in st.body) and not st.orelse
                 if only_raise:
@@ -918,6 +923,81 @@ class _MatEval:
                 self.ret.append((self.ev(st.value) if st.value is not None else None, conditional, st))
             else:
                 raise _NoRec("statement %s at line %s" % (type(st).__name__, st.lineno))
+
+    QUIET = {"print", "debug", "info", "warning", "warn", "error", "log", "isinstance", "len", "repr", "str", "format", "write"}
+
+    def effect_call(self, c, loops, conditional):
+        """a call made for its effect: when one of the arrays this evaluation follows is handed to it (receiver, argument, out=) the
+        call may rewrite that array.  The bounding calls with out=<array> are read as the assignment they are; any other such call is
+        not read (no verdict) unless it is plainly a reporting call."""
+        names = [a for a in list(c.args) + [k.value for k in c.keywords] if isinstance(a, ast.Name)]
+        if isinstance(c.func, ast.Attribute) and isinstance(c.func.value, ast.Name):
+            names.append(c.func.value)
+        touched = [a.id for a in names if isinstance(self.env.get(a.id), _Arr)]
+        outk = kwarg(c, "out")
+        if not touched and outk is None:
+            return
+        if outk is None and call_name(c) in self.QUIET:
+            return
+        if isinstance(outk, ast.Name) and isinstance(self.env.get(outk.id), _Arr) and not loops and not conditional:
+            tgt = self.settled(self.env[outk.id])
+            c2 = ast.Call(func=c.func, args=list(c.args), keywords=[k for k in c.keywords if k.arg != "out"])
+            ast.copy_location(c2, c)
+            v = self.call(c2)
+            if isinstance(v, _Arr) and v.rank == tgt.rank:
+                self.env[outk.id] = _Arr(tgt.rank, v.fn, tgt.origin, tgt.call)
+                return
+        raise _NoRec("call `%s` (it may rewrite an array)" % norm(c)[:60])
+
+    def element(self, out, tg):
+        """element tg (one target symbol per axis) of an array defined by one unconditional store inside loops:
+        (term, every index runs over the full extent, texts of the loop ranges)"""
+        if len(out.stores) != 1:
+            raise _NoRec("%d stores into the result" % len(out.stores))
+        idx, val, loops, conditional, st = out.stores[0]
+        if conditional:
+            raise _NoRec("conditional store `%s`" % norm(st)[:60])
+        if "rest" in idx or "new" in idx:
+            raise _NoRec("store index `%s`" % norm(st)[:60])
+        idx = idx + ["all"] * (out.rank - len(idx))
+        if len(idx) != out.rank:
+            raise _NoRec("store index `%s`" % norm(st)[:60])
+        sub, free, full, texts = {}, [], True, []
+        for x, tgt in zip(idx, tg):
+            if x == "all":
+                free.append(tgt)
+            elif x in self.loopinfo and x in loops and x not in sub:
+                sub[x] = tgt
+                if not self.loopinfo[x][0]:
+                    full = False
+                texts.append(self.loopinfo[x][1])
+            else:
+                raise _NoRec("store index `%s`" % norm(st)[:60])
+        if isinstance(val, _Arr):
+            if val.rank > len(free):
+                raise _NoRec("shape of the stored value in `%s`" % norm(st)[:60])
+            term = val.fn(*free[len(free) - val.rank:])
+        else:
+            term = val
+        if not isinstance(term, sp.Basic):
+            raise _NoRec("stored value in `%s`" % norm(st)[:60])
+        term = term.xreplace(sub)
+        if any(k in term.free_symbols for k in self.loopinfo):
+            raise _NoRec("the stored value depends on a loop index that does not address the element")
+        return term, full, texts
+
+    def settled(self, v):
+        """an array that was filled by a store is read as a value: once the filling loops have finished, over the full extent, it is the
+        array whose element is the stored term (it keeps its buffer: origin and allocating call).  Read earlier, or partly filled: not read."""
+        if not isinstance(v, _Arr) or not v.stores:
+            return v
+        if any(k not in self.closed for st_ in v.stores for k in st_[2]):
+            raise _NoRec("an array is read while the loop that fills it is still running")
+        ps = [sp.Symbol("p%d_" % n, integer=True) for n in range(v.rank)]
+        term, full, _ = self.element(v, ps)
+        if not full:
+            raise _NoRec("an array filled over part of its extent is read as a whole")
+        return _Arr(v.rank, (lambda *ix, _t=term, _ps=ps: _t.xreplace(dict(zip(_ps, ix)))), v.origin, v.call)
 
     def close_lists(self, k):
         for name, acc in list(self.env.items()):
@@ -1001,6 +1081,7 @@ class _MatEval:
         return out
 
     def index(self, base, idx):
+        base = self.settled(base)
         if "rest" in idx:
             p = idx.index("rest")
             used = sum(1 for x in idx if x != "new" and x != "rest")
@@ -1035,6 +1116,7 @@ class _MatEval:
         return self.lift(f, a, b)
 
     def lift(self, f, *vals):
+        vals = [self.settled(v) for v in vals]
         for v in vals:
             if not isinstance(v, (_Arr, sp.Basic)):
                 raise _NoRec("operand %r" % (v,))
@@ -1075,6 +1157,7 @@ class _MatEval:
                 if e.attr == "ndim":
                     return sp.Integer(b.rank)
                 if e.attr == "T" and b.rank == 2:
+                    b = self.settled(b)
                     return _Arr(2, lambda i, j, _b=b: _b.fn(j, i), b.origin)
             raise _NoRec("attribute `%s`" % norm(e))
         if isinstance(e, ast.Tuple):
@@ -1103,6 +1186,10 @@ class _MatEval:
         args = ([c.func.value] if method else []) + list(c.args)
         if nm in self.ELEMWISE and len(args) == 1:
             return self.lift(self.ELEMWISE[nm], self.ev(args[0]))
+        if nm in ("clip", "minimum", "maximum", "fmin", "fmax") or (nm in ("min", "max") and isinstance(c.func, ast.Name) and nm not in self.env):
+            v = self.bounded(c, nm, args)
+            if v is not None:
+                return v
         if nm in ("float", "int") and len(args) == 1 and nm == "float":
             return self.ev(args[0])
         if nm == "len" and len(args) == 1:
@@ -1148,6 +1235,48 @@ class _MatEval:
             return self.binop(op, self.ev(args[0]), self.ev(args[1]))
         raise _NoRec("call `%s`" % norm(c)[:60])
 
+    def bounded(self, c, nm, args):
+        """element-wise bounding: np.clip(a, lo, hi) / a.clip(lo, hi) is min(max(a, lo), hi) (None: no bound on that side); np.minimum /
+        np.maximum / fmin / fmax and the built-in min / max of scalars are the lesser / greater operand.  The value keeps the buffer of
+        the one array operand (its dtype decides what the stores kept)."""
+        if nm == "clip":
+            kws = {k.arg: k.value for k in c.keywords}
+            if None in kws or not set(kws) <= {"a", "a_min", "a_max", "min", "max"}:
+                raise _NoRec("call `%s`" % norm(c)[:60])
+            rest = list(args)
+            a = kws["a"] if "a" in kws else (rest.pop(0) if rest else None)
+            lo = kws.get("a_min", kws.get("min")) if ("a_min" in kws or "min" in kws) else (rest.pop(0) if rest else None)
+            hi = kws.get("a_max", kws.get("max")) if ("a_max" in kws or "max" in kws) else (rest.pop(0) if rest else None)
+            if a is None or rest:
+                raise _NoRec("call `%s`" % norm(c)[:60])
+            av = self.settled(self.ev(a))
+            lov = None if lo is None else self.ev(lo)
+            hiv = None if hi is None else self.ev(hi)
+            ops = [av]
+            f = lambda x: x
+            if lov is not None and hiv is not None:
+                ops, f = [av, lov, hiv], (lambda x, l, h: sp.Min(sp.Max(x, l), h))
+            elif lov is not None:
+                ops, f = [av, lov], (lambda x, l: sp.Max(x, l))
+            elif hiv is not None:
+                ops, f = [av, hiv], (lambda x, h: sp.Min(x, h))
+        else:
+            if c.keywords or len(args) < 2 or (nm not in ("min", "max") and len(args) != 2):
+                raise _NoRec("call `%s`" % norm(c)[:60])
+            ops = [self.settled(self.ev(a)) for a in args]
+            if nm in ("min", "max") and not all(isinstance(v, sp.Basic) for v in ops):
+                raise _NoRec("call `%s`" % norm(c)[:60])
+            g = sp.Min if nm in ("min", "minimum", "fmin") else sp.Max
+            f = lambda *xs: g(*xs)
+        try:
+            out = self.lift(f, *ops)
+        except (TypeError, ValueError) as ex:
+            raise _NoRec("call `%s` (%s)" % (norm(c)[:60], ex))
+        arrs = [v for v in ops if isinstance(v, _Arr)]
+        if isinstance(out, _Arr) and len(arrs) == 1 and arrs[0].rank == out.rank and arrs[0].origin in ("alloc", "copy"):
+            out = _Arr(out.rank, out.fn, arrs[0].origin, arrs[0].call)
+        return out
+
     # -- result
     def result(self):
         """(the returned array, element (i, j) as a term, every index runs over the full extent: True / False / None, text)"""
@@ -1159,38 +1288,7 @@ class _MatEval:
             raise _NoRec("the returned value is not a matrix known element by element")
         if not out.stores:
             return out, out.fn(i, j), True, "expression"
-        if len(out.stores) != 1:
-            raise _NoRec("%d stores into the result" % len(out.stores))
-        idx, val, loops, conditional, st = out.stores[0]
-        if conditional:
-            raise _NoRec("conditional store `%s`" % norm(st)[:60])
-        if "rest" in idx or "new" in idx:
-            raise _NoRec("store index `%s`" % norm(st)[:60])
-        idx = idx + ["all"] * (2 - len(idx))
-        if len(idx) != 2:
-            raise _NoRec("store index `%s`" % norm(st)[:60])
-        sub, free, full, texts = {}, [], True, []
-        for x, tgt in zip(idx, (i, j)):
-            if x == "all":
-                free.append(tgt)
-            elif x in self.loopinfo and x in loops and x not in sub:
-                sub[x] = tgt
-                if not self.loopinfo[x][0]:
-                    full = False
-                texts.append(self.loopinfo[x][1])
-            else:
-                raise _NoRec("store index `%s`" % norm(st)[:60])
-        if isinstance(val, _Arr):
-            if val.rank > len(free):
-                raise _NoRec("shape of the stored value in `%s`" % norm(st)[:60])
-            term = val.fn(*free[len(free) - val.rank:])
-        else:
-            term = val
-        if not isinstance(term, sp.Basic):
-            raise _NoRec("stored value in `%s`" % norm(st)[:60])
-        term = term.xreplace(sub)
-        if any(k in term.free_symbols for k in self.loopinfo):
-            raise _NoRec("the stored value depends on a loop index that does not address the element")
+        term, full, texts = self.element(out, [i, j])
         return out, term, full, (", ".join(texts) or "broadcast store")
 
 
